@@ -489,6 +489,8 @@ def run_impl(sc, weights='patch', split=False, reduced=False):
         def create_work_order(self, *a, **kw):
             n = len(wos)
             r = orig_create(self, *a, **kw)
+            if r:
+                self._verif_accepted = getattr(self, '_verif_accepted', 0) + 1
             if len(wos) > n:
                 cnt = getattr(self, '_verif_count', 0)
                 wos[-1]._verif_id = cnt          # per-maintainer numbering, as in the model
@@ -637,7 +639,7 @@ def observe(W, x, st, devs, pools, new):
         e['value_hist'] = [[to_ticks(t), to_ticks(dl), to_ticks(v)] for _, t, dl, v in d._value_history]
         e['dev_value'] = to_ticks(d._value)
         o['devices'][i] = e
-    o['maints'] = {i: dict(util=to_ticks(m._utilization), value=to_ticks(m.value), queue=len(m._request_queue),
+    o['maints'] = {i: dict(util=to_ticks(m._utilization), value=to_ticks(m.value), queue=len(m._request_queue), accepted=getattr(m, '_verif_accepted', 0),
                            active=[[wo.target.id - W.base, to_ticks(wo.needed_capacity)] for wo in m._active_requests],
                            capacity=None if m._capacity == float('inf') else to_ticks(m._capacity))
                    for i, m in W.maints.items()}
